@@ -96,7 +96,13 @@ def _run_case(case, ctx):
                 conv = (list, bytes, bytearray)[(len(case["id"]) + j) // 3 % 3]
                 c = CassetteFile(buffer=conv(c.get_buffer()))
                 ctx.mon("reopened-between-additions")
-            c.add_file(G.to_coco(s))                        # M7 fires per add_file
+            try:
+                c.add_file(G.to_coco(s))                    # M7 fires per add_file
+            except Exception as e:
+                ctx.outcome("add-raised")
+                ctx.violation("tape-roundtrip", "own.add", "ADD-RAISED:%s" % type(e).__name__, dict(wit, error=str(e)[:100], after=j),
+                              prop="C09" if ctx.prop == "C09" else "C06")
+                return
             # the same object is listed between additions (list, add, list ...)
             if True:
                 try:
